@@ -439,6 +439,10 @@ fn check_site(site: &CallSite, cfg: &Cfg) -> SiteResult {
                 return Err(("bound".into(), format!("bound {} does not exceed the largest id used {}", h.bound, mx)));
             }
         }
+        if cfg.list_len > 10_000 {
+            // not encodable: the round trip through the binary form is not defined for it
+            return Ok(());
+        }
         let words = m.assemble();
         if terminator_not_last {
             return Ok(());
@@ -502,6 +506,10 @@ fn configs(site: &CallSite, tier: Tier) -> Vec<Cfg> {
         v.push(Cfg { list_len: 0, ..base.clone() });
         v.push(Cfg { list_len: 1, ..base.clone() });
         v.push(Cfg { list_len: 7, ..base.clone() });
+        if needs_block(site) {
+            // operand lists far beyond what one instruction can encode (the Builder builds data, it does not encode)
+            v.push(Cfg { list_len: 70_000, ..base.clone() });
+        }
     }
     if matches!(site.name, "variable" | "undef" | "line" | "no_line") {
         v.push(Cfg { in_block: true, ..base.clone() });
@@ -869,13 +877,20 @@ fn c12_sweep(sites: &[&CallSite]) -> (u64, Vec<Viol>) {
         .par_iter()
         .map(|site| {
             let mut out = vec![];
-            for ctx in 0..12 {
+            for ctx in 0..13 {
                 // 0: nothing open; 1: function open, no block; 2: block open and then closed by a terminator;
                 // 3: block open (holding one instruction): the call succeeds, appends exactly one instruction to that
                 //    block, and closes the block iff the opcode is a block-termination instruction of the specification
                 let mut args = Args::new(site.params);
                 args.word_base = 1;
                 args.word_step = 16;
+                if ctx == 12 {
+                    // context 12: as 3, with operand lists of 70 000 elements (only methods that take a list)
+                    if !site.params.iter().any(|p| matches!(p.ty, Ty::Words | Ty::U32s | Ty::PairsWW | Ty::PairsWU | Ty::PairsOW)) {
+                        continue;
+                    }
+                    args.list_len = 70_000;
+                }
                 let rep = json!({"kind": "builder-call", "method": site.name, "context": ctx});
                 let r = guarded(|| -> Result<(), String> {
                     let mut b = Builder::new();
@@ -916,7 +931,7 @@ fn c12_sweep(sites: &[&CallSite]) -> (u64, Vec<Viol>) {
                         // contexts 3..7: the block's last instruction is OpNop / OpSelectionMerge / OpLoopMerge / OpLine / OpNoLine
                         b.begin_block(None).map_err(|e| format!("{:?}", e))?;
                         match ctx {
-                            3 | 8..=11 => b.nop().map_err(|e| format!("{:?}", e))?,
+                            3 | 8..=12 => b.nop().map_err(|e| format!("{:?}", e))?,
                             4 => b.selection_merge(9001, spirv::SelectionControl::NONE).map_err(|e| format!("{:?}", e))?,
                             5 => b.loop_merge(9001, 9002, spirv::LoopControl::NONE, vec![]).map_err(|e| format!("{:?}", e))?,
                             6 => b.line(9003, 7, 8),
@@ -996,7 +1011,7 @@ fn c12_sweep(sites: &[&CallSite]) -> (u64, Vec<Viol>) {
     for v in res {
         all.extend(v);
     }
-    (sites.len() as u64 * 12, all)
+    (sites.len() as u64 * 13, all)
 }
 
 fn main() {
@@ -1111,7 +1126,7 @@ fn main() {
     for (k, n) in oc {
         run.outcome(k, n);
     }
-    let (mut states, mut trans, mut complete) = histories(tier.pick(6, 8), &mut run);
+    let (mut states, mut trans, mut complete) = histories(tier.pick(6, 7), &mut run);
     // non-initial states: a module that already has a 64-bit type, a 64-bit constant and one complete function (and a
     // reserved id); every continuation of depth 5 / 6
     for root in [
@@ -1186,7 +1201,7 @@ fn main() {
     run.set("methods", json!(sites.len()));
     run.set("rule", json!("part 1: one frozen call site per public instruction-emitting Builder method (1149 of 1153; the 4 structural ones are driven by part 2), each called in its legal context with positional arguments all distinct, for: implicit and explicit result id, every trailing run of optional parameters, list lengths 0/1/2, insertion at the beginning, module-level and in-block placement where both exist, every enumerant / mask value of each value parameter with its grammar parameters; the emitted instruction must have the method's opcode, result type/id and the arguments in grammar order, sit in the right section, and the finished module must assemble, load and compare equal operand for operand, with the version set and a bound above every id. part 2: BFS closure over 21 Builder calls to depth d, every complete state through assemble -> load -> compare. non-trivial = call configurations + complete histories"));
     run.set("exhaustive", json!(true));
-    run.set("bounds", json!({"call_configurations": work.len(), "history_depth": tier.pick(6, 8), "history_alphabet": HOPS.len(), "history_states": states, "history_transitions": trans}));
+    run.set("bounds", json!({"call_configurations": work.len(), "history_depth": tier.pick(6, 7), "history_alphabet": HOPS.len(), "history_states": states, "history_transitions": trans}));
     run.set("samples", json!(work.iter().step_by(work.len() / 5 + 1).map(|(s, c)| json!({"method": s.name, "config": format!("{:?}", c)})).collect::<Vec<_>>()));
     run.assume("arguments conforming to the grammar: optionals only as a trailing run, parameters of a parameterised enumerant with the kinds the golden lists, strings without NUL, a nested OpSpecConstantOp opcode without operands");
     run.require_outcome("checked");
